@@ -272,7 +272,7 @@ var noEffectPrefixes = []string{
 	"strconv.", "unicode", "slices.", "sort.", "cmp.", "encoding/binary.", "(encoding/binary.", "math/rand.", "(*golang.org/x/text/encoding.Encoder).String",
 	"(*golang.org/x/text/encoding.Decoder).String", "golang.org/x/crypto/bcrypt.", "time.Sleep", "(*sync.Mutex).", "(*sync.RWMutex).",
 	"hotline.HashAndSalt", "(*sync/atomic.", "(error).Error", "io.ReadAll", "(*math/big.Int).SetBit", "(io/fs.DirEntry).", "encoding/hex.",
-	"regexp.", "(*regexp.Regexp).", "gopkg.in/yaml.v3.Marshal", "os.WriteFile", "os.Rename", "os.Remove", "os.RemoveAll", "os.Mkdir", "os.MkdirAll",
+	"regexp.", "(*regexp.Regexp).", "gopkg.in/yaml.v3.Marshal", "(hotline.FileStore).", "os.WriteFile", "os.Rename", "os.Remove", "os.RemoveAll", "os.Mkdir", "os.MkdirAll",
 	"os.Stat", "os.Lstat", "os.Open", "os.OpenFile", "os.ReadFile", "os.ReadDir", "os.Symlink", "os.Readlink", "(*os.File).", "os.Create", "path/filepath.", "mime.", "unicode/utf8.", "(time.Duration).", "fmt.Fprint", "os.Getenv", "net.SplitHostPort",
 }
 
